@@ -208,23 +208,24 @@ NOT_APPLICABLE = {}
 LATER = {
  "C01": " Later additions: sub-check `reuse` (Exp on the same tensor object again after an in-place change of its data and after the returned element was overwritten); every case carries a memory layout (contiguous / batch dimensions stored reversed / strided view) and batches of up to 6 items.",
  "C02": " Later additions: memory layout and batches with two extents > 1 in every case; regime `nearpi` and the gap between the eps and sqrt(eps) bands in the shared generators.",
- "C03": " Later additions: the laws on a (2,2) batch against a second operand that broadcasts along a non-leading batch dimension; identity constructors re-queried after single identities were updated in place.",
- "C04": " Later additions: Sim3 / RxSO3 at O(1) magnitudes and both quaternion signs; sub-check `route_canary` (every vectorised route x group x operator at a fixed point must return the numerical Jacobian; only torch.vmap refusals are excused elsewhere); sub-check `batch_mix` (the gradient of every row of a batch that mixes point classes equals the gradient of the row alone).",
+ "C03": " Later additions: the laws on a (2,2) batch against a second operand that broadcasts along a non-leading batch dimension; identity constructors re-queried after single identities were updated in place. identity_() on views with non-mergeable strides (receiver, storage, rest of the base).",
+ "C04": " Later additions: Sim3 / RxSO3 at O(1) magnitudes and both quaternion signs; sub-check `route_canary` (every vectorised route x group x operator at a fixed point must return the numerical Jacobian; only torch.vmap refusals are excused elsewhere); sub-check `batch_mix` (the gradient of every row of a batch that mixes point classes equals the gradient of the row alone). Rotation vectors whose norm is exactly a switch-over point (0.1, eps) of the hand-written Jacobians.",
  "C05": " Later additions: operands in non-contiguous layouts, the functional spellings pp.Adj / AdjT / Jinvp / Jr, and a reuse phase (the same element after an in-place change against a fresh element, bitwise) for Adj / AdjT / Jinvp.",
+ "C06": " Later additions: cumulative products along every batch dimension (non-negative and negative spelling of dim) against the same call on each 1-D line.",
  "C07": " Later additions: the optimizer object may have a past (an earlier step with another per-call weight or without arguments; the judged step is the one after it), distinct kernels per residual in kernel lists, a second residual that aliases a parameter, LM must end at the retraction of its last solve (unchanged is not accepted), steps outside the comparable domain (overflow / sim3 truncation) are skipped or discarded, Cholesky(upper=True) among the linear solvers.",
- "C08": " Later additions: rejection exhaustion reachable for every reject in 0..16, a solver raising at any solve index, parameters in non-contiguous (transposed 2-D) storage, non-finite parameters from bounded steps are a failure.",
+ "C08": " Later additions: rejection exhaustion reachable for every reject in 0..16, a solver raising at any solve index, parameters in non-contiguous (transposed 2-D) storage, non-finite parameters from bounded steps are a failure. A prior model whose output is a view of the parameter; the residual handed to the strategy is recomputed by the harness.",
  "C09": " Later additions: sub-check `descent` (GN / LM with a capturing solver: J'^T R' equals the autograd gradient of the loss the optimizer reports), monotonicity on separated pairs, eps-level derived tolerances, kernel objects used on valid input before the negative one.",
- "C10": " Later additions: block grids up to the stated size 40, CG solver objects reused after a small system, rtol / atol / rcond options, weakly indefinite and PSD-singular Cholesky inputs, rank ambiguity judged on what torch's own eigh / svd sees.",
+ "C10": " Later additions: block grids up to the stated size 40, CG solver objects reused after a small system, rtol / atol / rcond options, weakly indefinite and PSD-singular Cholesky inputs, rank ambiguity judged on what torch's own eigh / svd sees. A second solver object of the same class with other options alive between construction and call.",
  "C11": " Later additions: Euler angles on batches of all four group types, arbitrary (non-principal) angles, the eps argument; scale / non-finite / bottom-row defects at any batch position; column-major matrix arguments and explicit rtol / atol on valid inputs.",
  "C12": " Later additions: sub-check `after_fault` (a valid call after a call of the same length whose operation raised), all 12 API spellings, long folds on groups, inputs tracked by autograd (non-leaf), calls under torch.no_grad(), derived tolerances.",
  "C13": " Later additions: UKF / PF on nonlinear systems (PSD, symmetry), mixed supply of Q / R (registered and overridden per call), arguments kept in preallocated tensors overwritten in place, a deep copy of the filter mid-run, particle counts tied to the closed-form effective sample size.",
- "C14": " Later additions: the same LQR instance called again, deep copies of the system / LQR module inside the history, nominal trajectories that are stride-0 expand() views (and must stay untouched), MPC with a step budget of 1, horizons to 20 and dims to 6 in the quick tier too.",
+ "C14": " Later additions: the same LQR instance called again, deep copies of the system / LQR module inside the history, nominal trajectories that are stride-0 expand() views (and must stay untouched), MPC with a step budget of 1, horizons to 20 and dims to 6 in the quick tier too. LTV systems varying in a proper subset of A, B, c1.",
  "C15": " Later additions: mixed / broadcast batches of rank 0-3, float32 NLS with derived tolerances, random call sequences on expression-tree systems, non-integral reference times, deep copies inside the clock histories (the original must keep its time).",
  "C16": " Later additions: the documented (B,H) initial state for B > 1, per-frame rotations beyond pi and 2 pi, one-sample streams up to F = 200, dict-then-buffer carry, per-call covariances, a deep copy of the integrator between chunks.",
  "C17": " Later additions: rank-2 and mutually broadcasting batches, per-item poses, noisy ICP targets and N down to 3, float32 EPnP, modules reused / constructed with defaults that the call overrides, backward-error optimality bounds.",
- "C18": " Later additions: exact ties and duplicates with a tie-aware reference, column-major point / pixel tensors, clouds up to 300 points, special extrinsics, derived distance tolerance.",
+ "C18": " Later additions: exact ties and duplicates with a tie-aware reference, column-major point / pixel tensors, clouds up to 300 points, special extrinsics, derived distance tolerance. Tiny scenes (depth below eps of the dtype) in the camera sub-check.",
  "C19": " Later additions: per-boundary continuity bounds (rotation and translation separately), a value oracle for every otype over a brute-force association, broadcasting geodesic loss (one element against all, every reduction).",
- "C20": " Later additions: verbose=True runs and a deep copy of the stepper mid-sequence.",
+ "C20": " Later additions: verbose=True runs and a deep copy of the stepper mid-sequence. MPC / ICP constructed without a stepper (documented defaults, one controller per object).",
 }
 for _k, _v in LATER.items():
     CHECKS[_k]["text"] = CHECKS[_k]["text"] + _v
